@@ -13,11 +13,11 @@ THEOREMS = [
     "C14.resolve_spec", "C14.resolve_entries", "C14.resolve_fn", "C14.final_set", "C14.closed_form",
     "C14.same_set_same_colors", "C14.order_indep", "C14.explicit_wins", "C14.first_registration_wins",
     "C14.Dangling.not_resolvable", "C14.unknown_then_known", "C14.palette_twice", "C14.palette_after_palette",
-    "C14.palette_unchanged", "C14.nocolor", "C14.cache_fresh", "C14.no_error", "C14.no_error_add",
-    "C14.parsed_colors_accepted", "C14.global_off_same", "C14.resolve_spec_global", "C14.synced_fresh",
-    "C14.registered_class_described", "C14.synced_pending_uncoloured", "C14.no_error_global", "C14.no_error_pal",
-    "C14.setGlobal_reentrant_raises", "C14.sub_palette_fresh", "C14.single_conf_same",
-    "C14.non_global_registration_inert", "C14.synced_follow_current_global",
+    "C14.palette_unchanged", "C14.named_colors_exact", "C14.near_miss_is_reference", "C14.nocolor",
+    "C14.cache_fresh", "C14.no_error", "C14.no_error_add", "C14.parsed_colors_accepted", "C14.global_off_same",
+    "C14.resolve_spec_global", "C14.synced_fresh", "C14.registered_class_described", "C14.synced_pending_uncoloured",
+    "C14.no_error_global", "C14.no_error_pal", "C14.setGlobal_reentrant_raises", "C14.sub_palette_fresh",
+    "C14.single_conf_same", "C14.non_global_registration_inert", "C14.synced_follow_current_global",
 ]
 
 
@@ -852,6 +852,11 @@ _COLS = ["RED", "GREEN", "BLUE", "YELLOW", "BLACK", "WHITE", "CYAN", "MAGENTA", 
          "(0,0,0)", "g0", "g5", "g23", "", "-", "-"]
 _MODS = ["bold", "no_bold", "underline", "no_underline", "blink", "no_blink", "crossed", "no_crossed", "faint", "no_faint"]
 _BUILTIN_IDS = ["TEXT", "NAME", "KEYWORD", "NUMBER", "OK", "WARN", "ERROR"]
+# ordinary syntax ids that are near-misses of colour names, gray/number colours, modifier names and other tokens of the
+# description grammar (another case, a prefix / suffix / underscore more): only the exact spelling is a colour / modifier
+_NEAR_MISS_IDS = ["red", "Red", "white", "black", "Blue", "Magenta", "yellow", "cyan", "green", "REDX", "XRED", "RED_", "_RED",
+                  "DARK_RED", "g24", "g05", "G5", "g", "g_5", "Bold", "BOLD", "bold_", "nobold", "no_Bold", "NO_BOLD", "no_",
+                  "underlined", "Blink", "text", "Text", "none", "None", "default", "DEFAULT", "x255", "c12"]
 
 
 def _gen_descr(rng, parent):
@@ -897,8 +902,10 @@ def _gen_set(rng, tier):
             ids.append("D0.E.F.G.Y%d" % i)                          # nesting depth 4
         elif r < 0.93:
             ids.append("D0.E.F.G.H%d.Y" % (i % 2))                  # nesting depth 5
-        elif r < 0.96:
+        elif r < 0.945:
             ids.append(rng.choice(_BUILTIN_IDS))
+        elif r < 0.975:
+            ids.append(rng.choice(_NEAR_MISS_IDS))
         else:
             ids.append("T%d" % i)
     if rng.random() < 0.15:
@@ -912,7 +919,8 @@ def _gen_set(rng, tier):
         if rng.random() < 0.65:
             cands = [p for p in order[:pos] if depth[p] < 4]
             extra = [b for b in _BUILTIN_IDS if b not in ids]
-            pool = cands * 3 + extra[:3] + (["MISSING", "MISSING.Z"] if rng.random() < 0.3 else [])
+            pool = cands * 3 + extra[:3] + (["MISSING", "MISSING.Z"] if rng.random() < 0.3 else []) + \
+                ([n for n in rng.sample(_NEAR_MISS_IDS, 2) if n not in ids] if rng.random() < 0.15 else [])
             if pool:
                 parent = rng.choice(pool)
         parent_of[sid] = parent
@@ -1047,6 +1055,12 @@ def corpus():
              "new 0 " + cfg_str({"DEMO.X": "BLUE:bold"}), "use 0", "glob", "syn 0", "use 1", "glob", "sget 0",
              "use 0", "add " + cfg_str({"FRESH": "GREEN"}), "sget 0", "pal 0 0", "sget 0", "use 1", "get " + enc_str("DEMO.X")],
             "global-replaced")
+    # ids that differ from colour / modifier names by case or by a character are ordinary ids: references, not colours
+    yield c(["new 0 " + cfg_str({"red": "(5,0,0)", "Magenta": "red:underline", "APP.ERROR": "red:bold", "APP.MARK": "Magenta",
+                                 "APP.SHADOW": "black:bold", "APP.NOTE": "APP.ERROR:-/g5", "APP.B": "Bold:RED", "APP.G": "g24"})] +
+            g("red", "Magenta", "APP.ERROR", "APP.MARK", "APP.SHADOW", "APP.NOTE", "APP.B", "APP.G") +
+            ["reg %s %s" % (enc_str("shades"), cfg_str({"black": "g3/g20", "Bold": ":bold", "g24": "WHITE"}))] +
+            g("APP.SHADOW", "APP.B", "APP.G", "black") + ["rep"], "near-miss-ids")
     # a compound palette hands out sub-palettes of the configuration it was obtained from, in its current state
     yield c(["cls 0 none %s=%s %s" % (enc_str("e"), enc_str("ENUM.ID"), cfg_str({"ENUM.ID": "ENUM.BASE:bold"})),
              "cls 1+ none %s=%s nodefaults" % (enc_str("border"), enc_str("TBL.BORDER")),
@@ -1370,7 +1384,9 @@ _BAD = ["RED:BLUE", ":RED", "A:B", "a/b/c", "A:RED:bold:x", "(1,2,6)", "A/RED", 
 _ODD = ["1_0", "+12", "-0", "007", " RED ", "\tRED", "(1, 2,3)", "( 1,2,3 )", "g05", "g24", "256", "1 0", "A::bold", "A:/",
         "/", "A:RED/", ":bold", "A:bold,,no_bold , ", " A", "-1", "1__0", "_1", "1_", "+ 1", "(+1,2,3)", "(1_0,0,0)", "g",
         "A:-", "-/-", "A:-/-:no_bold", "0x10", "2_5_5", "00256", "A:", "A: :bold", "A:RED :bold", "(1,2,3)/(3,2,1):crossed",
-        "\x1cRED\x1f", "\x0bRED", "no_bold", "A:no_bold", "S0:bold", "x,y:bold"]
+        "\x1cRED\x1f", "\x0bRED", "no_bold", "A:no_bold", "S0:bold", "x,y:bold",
+        "red", "A:red", "A:Magenta/BLUE", "red:GREEN", "Blue:/g1:no_bold", "red:-/YELLOW:blink", "A:RED/white", "white/RED",
+        "A:Bold", "A:BOLD", "Bold", "A:bold,Blink", "g24:bold", "A:g24", "A:G5", "G5/RED", "none", "A:none", "RED_:bold"]
 
 
 def _gen_malformed(rng, tier):
@@ -1508,6 +1524,8 @@ def tags(case, replies):
     if any(r.startswith("ok") and ":U" in r for l, r in zip(case["lines"], replies) if l == "ids"):
         yield "unresolved-at-end"
     descrs = [dec_str(t[2:]) for l in case["lines"] for t in l.split() if t.startswith("s:") and t != "s:-"]
+    if any(d.split(":")[0] in _NEAR_MISS_IDS for d in descrs):
+        yield "near-miss-id-as-reference"
     if any(" " in d for d in descrs) and case.get("meta", {}).get("kind") not in ("odd-description", "malformed-odd", "malformed-bad"):
         yield "blanks-in-description"
     if any(l.startswith("sub ") for l in case["lines"]):
@@ -1594,7 +1612,8 @@ NOCOLOR_COMPOUND_NOTE = ("observation (not judged): CompoundPalette(conf, no_col
                          "that keeps the configuration it was first built for; get_sub_palette on it, when reached through another "
                          "configuration, registers the sub-palette class's SYNTAX_DEFAULTS in the FIRST configuration, not in the one "
                          "the caller passed (colours are unaffected: all no-colour). Input: cls 4+; new; new; pal 4 1; use 0; sub 4 2 1; rep")
-ASSUMPTIONS = ["ids colliding with colour names or modifier names are out of domain",
+ASSUMPTIONS = ["ids equal (exact spelling) to a colour name, a gray/number colour or a modifier name are out of domain; case variants "
+               "and other near-misses (red, Magenta, g24, Bold, RED_ …) are ordinary ids and are generated",
                "no-colour sub-palettes of compound palettes are exercised with one configuration only (see NOCOLOR_COMPOUND_NOTE)",
                "descriptions are ASCII; int() and str.strip() are modelled for ASCII input only",
                "after an exception the configuration is not used any more (both sides answer `dead`)"]
